@@ -20,11 +20,26 @@ structure UpdFam (p : Profile) (enc peer : Codec) (m : Msg) where
   body : List Entry → Bytes
   N : List Entry → Nat
   Q : List Entry → Parsed
-  hdo : ∀ r, r ≠ [] → S r → doEncode p enc m r = .ok (frame 2 (body r), N r)
+  hmaxeq : peer.maxLen = enc.maxLen
+  hdo0 : ∀ r, r ≠ [] → S r → doEncodeBody p enc m r = .ok (frame 2 (body r), N r)
   hpos : ∀ r, r ≠ [] → S r → N r ≠ 0
   hsize : ∀ r, r ≠ [] → S r → 19 + (body r).length ≤ peer.maxLen ∧ 19 + (body r).length < 65536
   hparse : ∀ od r, r ≠ [] → S r → parseUpdate od peer (frame 2 (body r)) = .msg (Q r)
   hstruct : ∀ r, r ≠ [] → S r → frameLengths (frame 2 (body r)) = none
+
+/-- `do_encode` = its body when the frame passes the final size check -/
+theorem doEncode_of_body {p : Profile} {c : Codec} {m : Msg} {es : List Entry} {fr : Bytes} {n : Nat}
+    (h : doEncodeBody p c m es = .ok (fr, n)) (hsz : fr.length ≤ c.maxLen) : doEncode p c m es = .ok (fr, n) := by
+  unfold doEncode
+  rw [h]
+  simp only
+  rw [if_neg (by omega)]
+
+theorem UpdFam.hdo {p : Profile} {enc peer : Codec} {m : Msg} (U : UpdFam p enc peer m) (r : List Entry)
+    (hr : r ≠ []) (hS : U.S r) : doEncode p enc m r = .ok (frame 2 (U.body r), U.N r) := by
+  refine doEncode_of_body (U.hdo0 r hr hS) ?_
+  rw [frame_length, ← U.hmaxeq]
+  exact (U.hsize r hr hS).1
 
 theorem UpdFam.encodeTo_eq {p : Profile} {enc peer : Codec} {m : Msg} (U : UpdFam p enc peer m)
     (es : List Entry) (hes : m.entries = es) (hne : es ≠ []) (hS : U.S es) :
